@@ -308,7 +308,23 @@ func (p *Prog) ConstString(pkg, name string) (string, bool) {
 }
 
 // Methods of all module types implementing a method named m on interface iface (CHA restricted to the module, non-mock).
+type implKey struct {
+	iface  *types.Interface
+	method string
+}
+
+var implCache = map[implKey][]*ssa.Function{}
+
 func (p *Prog) Implementations(iface *types.Interface, method string) []*ssa.Function {
+	if r, ok := implCache[implKey{iface, method}]; ok {
+		return r
+	}
+	out := p.implementationsUncached(iface, method)
+	implCache[implKey{iface, method}] = out
+	return out
+}
+
+func (p *Prog) implementationsUncached(iface *types.Interface, method string) []*ssa.Function {
 	var out []*ssa.Function
 	seen := map[*ssa.Function]bool{}
 	for _, sp := range p.Pkg {
